@@ -294,6 +294,8 @@ def remove_unused_imports(source: str) -> str:
 
 
 def fix_too_many_blank_lines(source: str) -> str:
+    original_source = source
+
     # At module level, remove all above 2 blank lines
     source = re.sub(r"(\n\s*){3,}\n", "\n" * 3, source)
 
@@ -302,6 +304,10 @@ def fix_too_many_blank_lines(source: str) -> str:
 
     # At non-module (any indented) level, remove all newlines above 1, preserve indent
     source = re.sub(r"(\n\s*){2,}(\n\s+)(?=[^\n\s])", r"\n\g<2>", source)
+
+    if core.is_valid_python(original_source) and not core.is_valid_python(source):
+        # For example a backslash continuation onto a blank line at the end of the file
+        return original_source
 
     return source
 
